@@ -93,10 +93,9 @@ Qed.
 (** ** geometry: targets stay on the board *)
 Lemma offset_lt s df dr t : offset s df dr = Some t -> t < 64.
 Proof.
-  unfold offset. cbv zeta. destruct (on_board _ _) eqn:E; [|discriminate]. intros H.
-  injection H as <-. unfold on_board in E.
-  apply andb_true_iff in E as [E E4]. apply andb_true_iff in E as [E E3]. apply andb_true_iff in E as [E1 E2].
-  apply Z.leb_le in E1, E2, E3, E4. lia.
+  unfold offset. destruct (on_board _ _) eqn:E; [|discriminate]. intros H.
+  pose proof (f_equal (fun o => match o with Some x => x | None => 0 end) H) as H'.
+  cbv beta iota in H'. subst t. clear H. unfold on_board in E. lia.
 Qed.
 
 Lemma In_somes {A} (l : list (option A)) x : In x (somes l) <-> In (Some x) l.
@@ -162,14 +161,15 @@ Qed.
 Lemma piece_word_testbit b c pt t : pt <> 0 ->
   N.testbit (piece_word b c pt) t = (t <? 64) && (at_ b t =? mk_piece c pt).
 Proof.
-  intros H. unfold piece_word. apply N.eqb_neq in H. rewrite H. apply bb_filter_testbit.
+  intros H. unfold piece_word. apply N.eqb_neq in H. rewrite H.
+  exact (bb_filter_testbit (fun s => at_ b s =? mk_piece c pt) t).
 Qed.
 
 Lemma meets_piece_word l b c pt : pt <> 0 -> (forall t, In t l -> t < 64) ->
   meets (bb_of l) (piece_word b c pt) = existsb (fun t => is_piece b t c pt) l.
 Proof.
   intros H Hl. unfold piece_word. apply N.eqb_neq in H. rewrite H.
-  now apply meets_bb_of_filter.
+  exact (meets_bb_of_filter l (fun s => at_ b s =? mk_piece c pt) Hl).
 Qed.
 
 Lemma board_at_view p s : length (brd p) = 64%nat -> s < 64 ->
@@ -226,10 +226,11 @@ Proof. induction 1 as [s t E|]; [now apply step_lt in E|assumption]. Qed.
 Lemma cpath_rev occ d n s t : s < 64 -> cpath occ d n s t -> cpath occ (opp d) n t s.
 Proof.
   intros Hs Hp. induction Hp as [s t E|n s u t E Eo Hp IH].
-  - constructor. apply step_opp; [exact Hs|now apply step_lt in E|exact E].
+  - constructor. assert (Ht : t < 64) by now apply step_lt in E.
+    now apply (proj1 (step_opp d s t Hs Ht)).
   - assert (Hu : u < 64) by now apply step_lt in E.
     apply cpath_snoc with u; [now apply IH|exact Eo|].
-    apply step_opp; assumption.
+    now apply (proj1 (step_opp d s u Hs Hu)).
 Qed.
 
 (* number of steps to the edge *)
